@@ -20,15 +20,14 @@ EXPLANATION = (
 ASSUMPTIONS = ["DelayedCall.cancel() raises on a call that already fired or was cancelled; LoopingCall.stop() ends the loop"]
 
 
-def check(ctx):
-    a = ctx.a
-    caps, pm, _ = capabilities(a)
+def timer_discipline(ctx, a, cls, regs=TIMED, r_cancel="R-CANCEL", r_arm="R-ARM"):
+    """R-CANCEL and R-ARM for the given registries of one protocol class. Returns (removals, alarm stores) seen."""
     n_unreg = n_arm = 0
-    for cls in a.protos[1:]:
-        cat = catalogue(a, cls)
-        cq = cls_short(cls.qual)
-        lc = lifecycle(a, cls)
-        hd = handles(a, cls)
+    cat = catalogue(a, cls)
+    cq = cls_short(cls.qual)
+    lc = lifecycle(a, cls)
+    hd = handles(a, cls)
+    if True:
         for tr in contexts(cat):
             if not tr.decode_ok:
                 continue
@@ -38,7 +37,7 @@ def check(ctx):
                 rfacts = rpath.st.facts if rpath.st is not None else {}
                 for i, e in enumerate(region):
                     # ---------------- R-CANCEL ----------------
-                    if e.kind == "UNREG" and e.a["reg"] in TIMED:
+                    if e.kind == "UNREG" and e.a["reg"] in regs:
                         reg = e.a["reg"]
                         n_unreg += 1
                         el = e.a.get("elem") or (("elem", reg, e.a["key"]) if e.a["key"] is not None else None)
@@ -58,7 +57,7 @@ def check(ctx):
                         elif tr.kind == "NET" and tr.name == "CONNACK":
                             if lc.loss_cancels(reg) and not lc.reg_in(reg, "CONNECTING") and not lc.reg_in(reg, "IDLE"):
                                 why = "carried-over entries only, their alarms were cancelled at the loss"
-                        ctx.ob("R-CANCEL", "%s removal from %s leaves no live timer (%s in %s)" % (cq, reg, short(e.func), tr.label()),
+                        ctx.ob(r_cancel, "%s removal from %s leaves no live timer (%s in %s)" % (cq, reg, short(e.func), tr.label()),
                                why is not None, where=where(e), function=e.func, construct="%s/uncancelled-removal/%s/%s" % (e.func, reg, tr.kind if tr.kind != "NET" else tr.label()),
                                msg="a request is removed from %s without its retry timer being cancelled, in a context where the timer can be "
                                    "pending (%s): the timer later re-sends a request that was already settled" % (reg, tr.label()),
@@ -66,7 +65,7 @@ def check(ctx):
                     # ---------------- R-ARM ----------------
                     if e.kind == "SETATTR" and isinstance(e.a["val"], tuple) and e.a["val"][0] == "timer":
                         loc = hd.obj_location(e.a["obj"], tr)
-                        if loc is None or loc[0] != "win":
+                        if loc is None or loc[0] != "win" or loc[1] not in regs:
                             continue
                         reg = loc[1]
                         obj = e.a["obj"]
@@ -86,10 +85,25 @@ def check(ctx):
                         elif tr.kind == "NET" and tr.name == "CONNACK":
                             if lc.loss_cancels(reg) and not lc.reg_in(reg, "CONNECTING") and not lc.reg_in(reg, "IDLE"):
                                 why = "carried-over entries only, their alarms were cancelled at the loss"
-                        ctx.ob("R-ARM", "%s retry alarm of %s is single (%s in %s)" % (cq, reg, short(e.func), tr.label()), why is not None,
+                        ctx.ob(r_arm, "%s retry alarm of %s is single (%s in %s)" % (cq, reg, short(e.func), tr.label()), why is not None,
                                where=where(e), function=e.func, construct="%s/double-arm/%s/%s" % (e.func, reg, tr.kind if tr.kind != "NET" else tr.label()),
                                msg="the alarm of an entry of %s is overwritten while the old timer can still be pending (%s): two live timers "
                                    "drive one packet and the stale one re-sends it early" % (reg, tr.label()), trigger=tr.label())
+    return n_unreg, n_arm
+
+
+def check(ctx):
+    a = ctx.a
+    caps, pm, _ = capabilities(a)
+    n_unreg = n_arm = 0
+    for cls in a.protos[1:]:
+        cat = catalogue(a, cls)
+        cq = cls_short(cls.qual)
+        lc = lifecycle(a, cls)
+        hd = handles(a, cls)
+        u, r = timer_discipline(ctx, a, cls)
+        n_unreg += u
+        n_arm += r
         # ---------------- R-LOSS ----------------
         for tr, what, ok, ev in hd.loss_obligations():
             fn = tr.entry.func
